@@ -58,7 +58,10 @@ class SolverState(object):
         self.ranges_on = False
         self.last_op_stop = False
         self.moved_by_ranges = False
-        self.cur_con = None; self.cur_box = None
+        self.cur_con = None; self.cur_box = None; self.cur_mode = None
+        self.box_log = []          # (first call index, (lo, hi)) boxes in force, for C02
+        self.box_since_start = None; self.box_changed = False
+        self.checked_calls = 0
         if h.get('limits'):
             g, e = h['limits']
             self.solver.SetEvaluationLimits(g, e)
@@ -127,6 +130,8 @@ class SolverState(object):
     def invariants(self, where):
         s = self.solver
         calls = self.cost.ncalls()
+        if self.active == 'C02':
+            self.check_c02(where)
         self.expect(int(s.evaluations) == calls, 'C04.evals',
                     lambda: dict(where=where, evaluations=int(s.evaluations), real_calls=calls, solver=self.kind))
         gens_model = max(0, self.iters() - 1)
@@ -144,6 +149,28 @@ class SolverState(object):
             last = float(eh[-1]); be = float(s.bestEnergy)
             self.expect(last == be or (last != last and be != be), 'C04.monotone',
                         lambda: dict(where=where, last=last, bestEnergy=be, solver=self.kind, note='last entry != bestEnergy'))
+
+    def check_c02(self, where):
+        calls = self.cost.calls
+        if self.box_log:
+            for j in range(self.checked_calls, len(calls)):
+                box = None
+                for start, b in self.box_log:
+                    if start <= j: box = b
+                if box is not None:
+                    x = calls[j][0]
+                    self.expect(lab.in_box(x, box[0], box[1]), 'C02.calls',
+                                lambda: dict(where=where, call=j, x=x, box=box, solver=self.kind, mode=self.cur_mode,
+                                             constraint=self.cur_con))
+        self.checked_calls = len(calls)
+        s = self.solver
+        if self.box_since_start is not None and not self.box_changed and self.iters() >= 1:
+            be = float(s.bestEnergy)
+            if math.isfinite(be):
+                bs = lab.fvec(s.bestSolution); box = self.box_since_start
+                self.expect(lab.in_box(bs, box[0], box[1]), 'C02.best',
+                            lambda: dict(where=where, bestSolution=bs, bestEnergy=be, box=box, solver=self.kind,
+                                         mode=self.cur_mode, constraint=self.cur_con))
 
     def _check_evalmon(self, where):
         em = self.evalmon
@@ -231,6 +258,8 @@ class SolverState(object):
             self.expect(arg == best, 'C04.callback', lambda: dict(where=where, arg=arg, best=best, solver=self.kind))
             if d_calls == 0 and self.ranges_on:
                 self.ctx.label('all-trials-rejected')
+            elif self.ranges_on and self.kind in ('DE', 'DE2') and d_calls < self.npop:
+                self.ctx.label('some-trial-rejected')
         if msg:
             self.stopped_msg = msg
             self.check_stopped(where, msg)
@@ -309,7 +338,7 @@ class SolverState(object):
             self._model_limits(g, e, new)
             self.invariants('limits')
         elif k == 'constraints':
-            if op[1] and self.cur_box and not lab.box_compatible(op[1], *self.cur_box):
+            if self.active != 'C02' and op[1] and self.cur_box and not lab.box_compatible(op[1], *self.cur_box):
                 # precondition of the property (constraints map the strict ranges into themselves)
                 self.ctx.exclude('constraint-incompatible-with-ranges (op skipped)')
                 return
@@ -321,6 +350,8 @@ class SolverState(object):
             s.SetPenalty(lab.make_penalty(op[1]))
             self.redecorate(); self.invariants('penalty')
         elif k == 'ranges':
+            if self.active == 'C02':
+                return self.apply_ranges_c02(op)
             if op[1] is not None and self.cur_con and not lab.box_compatible(self.cur_con, op[1], op[2]):
                 self.ctx.exclude('ranges-incompatible-with-constraint (op skipped)')
                 return
@@ -378,13 +409,51 @@ class SolverState(object):
             raise ValueError(op)
         self.mark_nontrivial()
 
+    def apply_ranges_c02(self, op):
+        s = self.solver
+        if op[1] is None:
+            s.SetStrictRanges(False, False)
+            self.ranges_on = False; self.cur_box = None; self.cur_mode = None
+            self.box_log.append((self.cost.ncalls(), None))
+            if self.box_since_start is not None: self.box_changed = True
+            self.redecorate(); self.invariants('ranges-off')
+            return
+        lo = [None if v is None else F(v) for v in op[1]]; hi = [None if v is None else F(v) for v in op[2]]
+        tight, clip = op[3], op[4]
+        if tight is False and clip is not None:
+            try:
+                s.SetStrictRanges(list(lo), list(hi), tight=tight, clip=clip)
+                ok = False
+            except ValueError:
+                ok = True
+            self.expect(ok, 'C02.reject', lambda: dict(tight=tight, clip=clip, note='documented ValueError not raised'))
+            self.ctx.label('rejected-mode')
+            return
+        s.SetStrictRanges(list(lo), list(hi), tight=tight, clip=clip)
+        elo = [-1e3 if v is None else v for v in lo]; ehi = [1e3 if v is None else v for v in hi]
+        self.cur_box = (elo, ehi); self.cur_mode = [tight, clip]; self.ranges_on = True
+        self.box_log.append((self.cost.ncalls(), (elo, ehi)))
+        if self.iters() == 0 and self.box_since_start is None and not self.box_changed:
+            self.box_since_start = (elo, ehi)
+        else:
+            self.box_changed = True
+            self.ctx.label('ranges-installed-midrun')
+        self.moved_by_ranges = True
+        self.redecorate(); self.invariants('ranges')
+
     def mark_nontrivial(self):
         ctx = self.ctx
         ctx.label('solver:' + self.kind)
         if self.redecorated: ctx.label('redecorated')
         if self.continued: ctx.label('continued-after-stop')
         if self.solves: ctx.label('solve')
-        if self.active == 'C04':
+        if self.active == 'C02':
+            pusher = bool(self.cur_con) and self.cur_con.get('kind') == 'push'
+            if pusher: ctx.label('pusher-active')
+            ctx.nontrivial(self.ranges_on and self.iters() >= 2 and
+                           (pusher or 'ranges-installed-midrun' in ctx.labels or 'all-trials-rejected' in ctx.labels
+                            or 'some-trial-rejected' in ctx.labels))
+        elif self.active == 'C04':
             ctx.nontrivial((self.redecorated or self.continued) and self.iters() - 1 >= 3)
         else:
             ctx.nontrivial((self.limits_special or self.solves >= 2) and self.iters() >= 2)
@@ -490,3 +559,50 @@ def machine_factory(for_prop):
 
         return SolverMachine
     return factory
+
+
+def c02_machine_factory(tier, Base):
+    modes = [(None, None), (True, None), (False, None), (True, True), (None, True), (True, False), (None, False),
+             (False, True), (False, False)]
+
+    class RangesMachine(Base):
+        OPEN = staticmethod(lambda case, ctx: SolverState(case, ctx, 'C02'))
+        APPLY = staticmethod(lambda state, op, ctx: state.apply(op))
+        CLOSE = staticmethod(lambda state: state.close())
+
+        @initialize(h=headers(tier, 'C02'))
+        def init(self, h):
+            h = dict(h); h['term'] = 'never'; h['limits'] = None
+            self.start(h)
+
+        @rule(n=st.integers(1, 3))
+        def step(self, n):
+            self.do(['step', n])
+
+        @rule(data=st.data(), tc=st.sampled_from(modes))
+        def ranges(self, data, tc):
+            dim = self.case['dim'] if self.case else 1
+            if data.draw(st.integers(0, 9)) == 0:
+                self.do(['ranges', None])
+                return
+            lo, hi = data.draw(lab.boxes(dim, integer=data.draw(st.booleans()), allow_inf=True))
+            # None sides (replaced by the default +-1e3)
+            lo = [None if data.draw(st.integers(0, 11)) == 0 else v for v in lo]
+            hi = [None if data.draw(st.integers(0, 11)) == 0 else v for v in hi]
+            self.do(['ranges', lo, hi, tc[0], tc[1]])
+
+        @rule(data=st.data())
+        def constraints(self, data):
+            dim = self.case['dim'] if self.case else 1
+            push = st.builds(lambda i, d, ip, r: dict(kind='push', i=i, d=d, inplace=ip, ret=r),
+                             st.integers(0, dim - 1), st.sampled_from([0.5, -0.5, 3.0, -10.0, 1e-9]),
+                             st.booleans(), st.sampled_from(['same', 'list', 'array']))
+            spec = data.draw(st.one_of(st.none(), push, push, lab.constraint_specs(dim, symbolic=False)))
+            self.do(['constraints', spec])
+
+        @rule(data=st.data())
+        def penalty(self, data):
+            dim = self.case['dim'] if self.case else 1
+            self.do(['penalty', data.draw(st.one_of(st.none(), lab.penalty_specs(dim)))])
+
+    return RangesMachine
